@@ -1249,8 +1249,12 @@ class C11(Spec):
     level_text = ('Table algebra full, substitution partial. Proved: C11_setValue_spec (setValue is the table function setValue_table and '
                   'touches nothing else), C11_existential, C11_last_write_wins, C11_other_names_untouched, C11_define_new, '
                   'C11_blank_stays_blank, C11_blank_initially, C11_no_brace_identity (text without a brace or backslash is returned unchanged '
-                  'by macro expansion, with no diagnostic -- via the verified first-set analysis of the generated macro regexes). '
-                  'Invocation = substitution on documents is decided by the hand-substitution oracle and correspondence.')
+                  'by macro expansion, with no diagnostic -- via the verified first-set analysis of the generated macro regexes), '
+                  'C11_simple_invocation / C11_invocation_equals_substitution / C11_invocation_match (in text with no other brace or backslash the '
+                  'invocation {name} of a defined macro is replaced by its value and the inline entry point renders it exactly as the text with '
+                  'the value written in its place, for every prefix, suffix, name, value, fuel and expansion with macros on: through the exact '
+                  'regex semantics and the completeness of the matcher). Parametrised, inclusion / exclusion and line-leading invocations, and '
+                  'invocation = substitution on whole documents, are decided by the hand-substitution oracle and correspondence.')
     rule = ('documents with 1-4 macro definitions (single/multi-line, values referring to earlier macros, redefinitions, existential) and '
             'invocations of every form at line start and mid-line in paragraphs, headers, list items; rendered against the hand-substituted '
             'document; non-trivial = at least one defined macro is invoked')
